@@ -894,6 +894,13 @@ func (dht *IpfsDHT) startNetworkSubscriber() error
 funclit 0 in (dht *IpfsDHT) startNetworkSubscriber() error
   props C13 C12
   ghost at before call(handleLocalReachabilityChangedEvent): assert(dht.auto == ModeAuto || dht.auto == ModeAutoServer)
+  # C12 dispatch table: a protocol update AND a completed identification both go
+  # through the add-or-evict decision for the peer they name; a connectedness
+  # change to anything but Connected retires the peer's message sender
+  ghost at before call(handlePeerChangeEvent)#0: assert(typeis(e, event.EvtPeerProtocolsUpdated) && $arg0 == dht && $arg1 == evt.Peer)
+  ghost at before call(handlePeerChangeEvent)#1: assert(typeis(e, event.EvtPeerIdentificationCompleted) && $arg0 == dht && $arg1 == evt.Peer)
+  ghost at before call(OnDisconnect): assert(typeis(e, event.EvtPeerConnectednessChanged) && $arg1 == evt.Peer && evt.Connectedness != network.Connected)
+  ghost at before call(RefreshNoWait): assert(typeis(e, event.EvtLocalAddressesUpdated))
 
 func (dht *IpfsDHT) handleNewStream(s network.Stream)
   props C13 C09
@@ -946,7 +953,14 @@ func (dht *IpfsDHT) lookupCheck(ctx context.Context, p peer.ID) error
   modifies *
   ensures [internal-answered] imp(result == nil, $gerr == nil)
   ghost at before call(GetClosestPeers): assert($arg1 == p && $arg2 == p)
-  ghost at call(GetClosestPeers): $gerr = $ret1
+  ghost at call(GetClosestPeers): $gerr = $ret1; $n = len($ret0)
+  # strict as soon as the table holds a full bucket (Size >= bucketSize): an
+  # empty answer is then a failed probe
+  ghostvar $n int = 0
+  ghostvar $size int = -1
+  ghost at call(Size): $size = $ret0
+  ensures [empty-answer-fails-once-the-table-holds-a-bucket] imp($gerr == nil && $n == 0 && $size >= dht.bucketSize, result != nil)
+  ensures [probe-error-is-reported] imp($gerr != nil, result != nil)
 
 func (dht *IpfsDHT) peerFound(p peer.ID)
   props C12
